@@ -37,6 +37,10 @@ FAILS = {
     "substring_reversed": ['fs = "abc"', "gv = fs.substring(2, a)"],
     "insert_range": ['fs = "ab"', 'gv = fs.insert("x", 8 + a)'],
     "delete_range": ['fs = "ab"', "gv = fs.delete(1, 8 + a)"],
+    "split_boundary": ['fs = "héllo"', "print fs.split(a + 1)"],
+    "substring_boundary": ['fs = "héllo"', "gv = fs.substring(0, a + 1)"],
+    "insert_boundary": ['fs = "héllo"', 'gv = fs.insert("x", a + 1)'],
+    "delete_boundary": ['fs = "héllo"', "gv = fs.delete(a + 1, 4)"],
     "radix": ['fs = "12"', "gv = fs.parse_int_radix(98 + a)"],
     "bigint_radix": ['fs = "12"', "gv = fs.parse_bigint_radix(a)"],
     # arithmetic overflow (see known_findings.json: the unit tests pin a panic for `+`)
